@@ -5,7 +5,7 @@
    invariant "frames done = min(count, bytes seen / frame size), leftover = the
    bytes seen beyond those frames, array = converted frames ++ unwritten cells". *)
 From Coq Require Import ZArith List Bool Lia.
-From Verif Require Import lib.C12_Py lib.C12_ZList gen.Sphere C12.Model C12.ProofsBytes.
+From Verif Require Import lib.C12_Py lib.C12_ZList gen.Sphere C12.Model C12.Spec C12.ProofsBytes.
 Import ListNotations.
 Open Scope Z_scope.
 
@@ -83,7 +83,6 @@ Proof. unfold convert_items. destruct (p_convert P); [destruct (p_coding P)|]; r
 
 (* ---- the invariant *)
 
-Definition wf_params (P : params) : Prop := 0 < p_chans P /\ 0 < p_size P /\ 0 <= p_count P.
 
 Record inv (P : params) (p : bytes) (st : lstate) (vals : list Z) : Prop := {
   inv_done : sdone st = nframes P p;
